@@ -106,6 +106,12 @@ def universe(tier):
     return out
 
 
+# result / option wrappers around a struct return: name -> (ok type, err type); '@' is the struct. 'o' is Option<@>.
+# (primitive error types are left out: the JS backend panics on them, which is a C15 finding)
+WRAPPERS = {"r": ("()", "@"), "k": ("@", "()"), "o": ("@", "()"), "u": ("u8", "@"), "w": ("u64", "@"), "e": ("@", "En")}
+ARM_BYTES = {"()": b"", "u8": bytes([0x7B]), "u64": bytes([8, 7, 6, 5, 4, 3, 2, 1]), "En": bytes([5, 0, 0, 0])}
+
+
 def bridge_source(structs, per_owner=60):
     L = ["#[diplomat::bridge]\nmod ffi {",
          "    #[diplomat::opaque]\n    pub struct Op(pub u32);",
@@ -127,6 +133,9 @@ def bridge_source(structs, per_owner=60):
                 L.append("        pub fn give_%s<'a>(x: &'a Op) -> %s<'a> { unimplemented!() }" % (s.name.lower(), s.name))
             else:
                 L.append("        pub fn give_%s() -> %s { unimplemented!() }" % (s.name.lower(), s.name))
+                for w, (okt, errt) in WRAPPERS.items():
+                    rt = "Option<%s>" % s.name if w == "o" else "Result<%s, %s>" % (okt.replace("@", s.name), errt.replace("@", s.name))
+                    L.append("        pub fn give_%s_%s() -> %s { unimplemented!() }" % (w, s.name.lower(), rt))
         L.append("    }")
     L.append("}")
     return "\n".join(L) + "\n"
@@ -134,7 +143,7 @@ def bridge_source(structs, per_owner=60):
 
 def oracle_source(structs):
     """host program printing the repr(C) layout (32-bit pointers substituted) as JSON"""
-    L = ["#![allow(dead_code, non_snake_case)]", "use diplomat_runtime::DiplomatOption;", "use core::mem::{size_of, align_of, offset_of};",
+    L = ["#![allow(dead_code, non_snake_case)]", "use diplomat_runtime::{DiplomatOption, DiplomatResult};", "use core::mem::{size_of, align_of, offset_of};",
          "#[repr(C)] #[derive(Clone, Copy)] pub enum En { A = 0, B = 5, C = -6 }",
          "#[repr(C)] pub struct In1 { pub x: u8 }", "#[repr(C)] pub struct In2 { pub a: u8, pub b: u32 }", "#[repr(C)] pub struct In3 { pub p: u64, pub q: u8, pub r: u16 }"]
     for s in structs:
@@ -151,6 +160,11 @@ def oracle_source(structs):
     for s in structs:
         L.append('    println!("\\"%s\\": {{\\"size\\": {}, \\"align\\": {}, \\"offsets\\": [%s]}},", size_of::<%s>(), align_of::<%s>(), %s);'
                  % (s.name, ", ".join("{}" for _ in s.fields), s.name, s.name, ", ".join("offset_of!(%s, %s)" % (s.name, n) for n, _ in s.fields)))
+        if not s.lifetime:
+            for w, (okt, errt) in WRAPPERS.items():
+                t = "DiplomatResult<%s, %s>" % (okt.replace("@", s.name), errt.replace("@", s.name))
+                L.append('    println!("\\"%s|%s\\": {{\\"size\\": {}, \\"align\\": {}, \\"flag\\": {}}},", size_of::<%s>(), align_of::<%s>(), offset_of!(%s, is_ok));'
+                         % (s.name, w, t, t, t))
     L.append('    println!("\\"_end\\": 0}}");')
     L.append("}")
     return "\n".join(L) + "\n"
